@@ -278,12 +278,18 @@ mod verif_xc_writer_history {
       "XC-WITNESS label=hist.last {:?} round={}: last_change_sequence_number() = {} but {} samples were written",
       c, round, last, written
     );
-    let want_first = after.iter().next().copied().unwrap_or(written + 1);
-    assert!(
-      first == want_first,
-      "XC-WITNESS label=hist.first {:?} round={}: first_change_sequence_number() = {} but the lowest retrievable number is {} (retained {:?}, last {})",
-      c, round, first, want_first, after, written
-    );
+    match after.iter().next() {
+      Some(lowest) => assert!(
+        first == *lowest,
+        "XC-WITNESS label=hist.first {:?} round={}: first_change_sequence_number() = {} but the lowest retrievable number is {} (retained {:?}, last {})",
+        c, round, first, lowest, after, written
+      ),
+      None => assert!(
+        first == written + 1,
+        "XC-WITNESS label=hist.first {:?} round={}: first_change_sequence_number() = {} although nothing is retained: required last + 1 = {}, the lowest number yet to be written",
+        c, round, first, written + 1
+      ),
+    }
     // get
     for s in 0..=written + 2 {
       match w.history_buffer.get_by_sn(sn(s)) {
